@@ -43,6 +43,20 @@ T = {
     "C06-D": ("C06", "scalar Dirichlet pseudo-count truncated to int", "prior_type='dirichlet' with a non-integer scalar pseudo_counts", ["C06"], False),
     "C09-C": ("C09", "NET writer lists parents in graph order while the table is laid out in the CPD's evidence order", "a node whose CPD evidence order differs from the graph's parent order, with unequal tables", ["C09"], False),
     "C09-D": ("C09", "UAI reader iterates a single-entry table token as characters", "a UAI function table with exactly one entry of more than one character", ["C09"], False),
+    "C02-C": ("C02", "BeliefPropagation.query rebuilds the clique tree from the pruned (often disconnected) network", "a Bayesian-network query whose variables and evidence split the pruned network into several components", ["C02"], False),
+    "C02-D": ("C02", "to_junction_tree links only consecutive cliques per variable before the spanning tree", ">= 4 maximal cliques around a hub clique and a particular clique listing order (insertion order / hash seed)", ["C02", "C14"], False),
+    "C03-C": ("C03", "BP skips re-calibration when clique beliefs exist", "one engine: max_calibrate() and then map_query on a strict part of the tree", ["C03", "C02"], False),
+    "C03-D": ("C03", "predict() asks one MAP query per missing column (marginal modes instead of the joint MAP)", "predict with >= 2 dependent missing columns", ["C03"], False),
+    "C04-C": ("C04", "factor_sum_product skips factors with an empty scope", "a factor list containing a fully eliminated factor whose value is not 1", ["C04"], False),
+    "C04-D": ("C04", "marginalize(inplace=False) shares the value buffer when nothing is summed out", "marginalize([]) out of place, later an in-place scalar operation or set_value on either factor", ["C04"], False),
+    "C07-C": ("C07", "forward_sample aligns partial_samples on index labels", "partial_samples whose index is not 0..n-1", ["C07"], False),
+    "C07-D": ("C07", "number-to-name map skipped when names and numbers are the same set", "integer state names that are a non-identity permutation of 0..k-1", ["C07"], False),
+    "C10-C": ("C10", "BIC/AIC child cardinality from the un-reindexed count table", "a declared but unobserved child state with >= 1 parent", ["C10"], False),
+    "C10-D": ("C10", "structure_score caches scorers by (class, id(data), shape, option names)", "second call on the same frame object with another equivalent_sample_size / state_names", ["C10"], False),
+    "C11-C": ("C11", "tabu membership set never shrinks when tabu_length=0", "tabu_length=0 and a climb in which an earlier move has to be undone", ["C11"], False),
+    "C11-D": ("C11", "`if not self.root_node` treats the column label 0 as 'no root given'", "integer column labels with root_node=0 that is not the auto-picked root", ["C11"], False),
+    "C12-C": ("C12", "PC stable variant drops v-side conditioning sets that contain a common neighbour", "stable variant, a pair separated only by such sets, visited as (u, v)", ["C12"], False),
+    "C12-D": ("C12", "Independencies caches a frozenset of its assertions on first membership test", "an Independencies object queried, then extended with add_assertions, then given to PC", ["C12"], False),
     "C17-B": ("C17", "initialize_initial_state pairs parent cardinalities with reversed parent names", "a CPD given for one slice with >= 2 same-slice parents of different cardinalities", ["C17"], True),
 }
 
